@@ -82,6 +82,9 @@ NOISY = [
     (("29.999", "40.004"), ("10.001", "19.996"), None, None),
     (("16.1", "6.1"), ("16.1", "26.1"), ("3.9", "0", "3.9", "6.1"), ("left", "top")),
     (("0.004", "9.996"), ("99.996", "50.004"), None, None),
+    # one-decimal values whose product with 100 lands just below an integer in binary floating point
+    (("8.7", "33.3"), ("40.3", "16.1"), ("4.6", "0", "4.6", "8.2"), None),
+    (("1.1", "2.3"), ("4.7", "9.2"), None, ("right", "top")),
 ]
 
 
@@ -370,17 +373,24 @@ RAW_SETTINGS = ["align:left", "position:10%,line-left line:5% size:40%", "vertic
 def eval_verbatim(settings_list):
     from pycaption import WebVTTReader, WebVTTWriter
 
+    # a settings entry prefixed with "EMPTY:" belongs to a cue without text (no caption comes of it, and its settings
+    # must not travel to a neighbour)
     lines = ["WEBVTT", ""]
+    want = []
     for i, s in enumerate(settings_list):
-        lines += [f"00:0{i}.000 --> 00:0{i}.500" + (f" {s}" if s else ""), f"cue {i}", ""]
+        empty = s.startswith("EMPTY:")
+        s = s[6:] if empty else s
+        lines += [f"00:0{i}.000 --> 00:0{i}.500" + (f" {s}" if s else "")] + ([] if empty else [f"cue {i}"]) + [""]
+        if not empty:
+            want.append(s)
     try:
         out = WebVTTWriter().write(WebVTTReader().read("\n".join(lines)))
         cues = parsers.parse_vtt(out)
     except Exception as e:  # noqa
         return [(f"C12/webvtt/verbatim/raises:{type(e).__name__}", {"err": str(e)[:200]})], "raises"
     got = [c["settings"] for c in cues]
-    if got != list(settings_list):
-        return [("C12/webvtt/verbatim/settings-changed", {"got": got, "want": list(settings_list)})], "changed"
+    if got != want:
+        return [("C12/webvtt/verbatim/settings-changed" + ("/next-to-an-empty-cue" if len(want) != len(settings_list) else ""), {"got": got, "want": want})], "changed"
     return [], tuple(got)
 
 
@@ -572,7 +582,7 @@ def run_shard(d):
                     desc["klass"] = "vtt-" + desc["klass"]
                     run(eval_vtt, desc, fit)
     elif k == "vtt2":
-        withorigin = [s for s in REDUCED if s[0]]
+        withorigin = [s for s in REDUCED if s[0]] + [(("10", "20"), ("30", "40"), ("1", "3", "4", "2"), None)]  # the last one: paddings that differ on every side
         for a, b in itertools.product(withorigin, repeat=2):
             for kind in ("span", "bare"):
                 for fit in (False, True):
@@ -588,6 +598,13 @@ def run_shard(d):
             for fit in (False, True):
                 run(eval_vtt, {"lang": None, "share": True, "captions": [{"layout": a, "parts": [("t0", None, "plain")]}, {"layout": a, "parts": [("t1", None, "plain")]}, {"layout": None, "parts": [("t2", a, "span")]}], "klass": "vtt-shared-layout-object"}, fit)
                 run(eval_dfxp, {"lang": None, "share": True, "captions": [{"layout": a, "parts": [("t0", None, "plain")]}, {"layout": a, "parts": [("t1", None, "plain")]}, {"layout": None, "parts": [("t2", a, "span")]}], "klass": "shared-layout-object"}, fit)
+        for a_ in RAW_SETTINGS[:3]:
+            for b_ in RAW_SETTINGS[:3] + [""]:
+                for combo in (("EMPTY:" + a_, b_), (b_, "EMPTY:" + a_, ""), ("", "EMPTY:" + a_, b_)):
+                    v, out = eval_verbatim(combo)
+                    acc.case(("verbatim", combo), True, out, {"webvtt_settings_in_file": combo})
+                    for sig, det in v:
+                        acc.violation(sig, {"fn": "verbatim", "settings": list(combo)}, det)
         for n in (1, 2, 3):
             for combo in itertools.product(RAW_SETTINGS + [""], repeat=n):
                 v, out = eval_verbatim(combo)
